@@ -604,9 +604,14 @@ class RawAlgorithmsMixIn:
         z = |x|
         """
         if numpy.iscomplexobj(x_data):
-            # |x(t)| = sqrt(x(t) conj(x(t))), a real polynomial
-            tmp = cls._mul(x_data, numpy.conj(x_data)).real
+            # |x(t)| = sqrt(x(t) conj(x(t))), a real polynomial; scaled by |x_0| so that
+            # the product neither overflows nor underflows where |x_0| is representable
+            scale = numpy.absolute(x_data[0])
+            scale = numpy.where((scale == 0) | ~numpy.isfinite(scale), 1., scale)
+            xs = x_data / scale
+            tmp = cls._mul(xs, numpy.conj(xs)).real
             z_data = cls._sqrt(tmp, out=numpy.empty_like(tmp))
+            z_data *= scale
             if out is None:
                 return z_data
             out[...] = z_data
